@@ -4,7 +4,9 @@ import (
 	"context"
 	"crypto/ed25519"
 	"encoding/binary"
+	"errors"
 	"fmt"
+	"sync/atomic"
 	"time"
 
 	"go.brendoncarroll.net/exp/crypto/sign/sig_ed25519"
@@ -34,7 +36,58 @@ type Stack struct {
 	Reply    func(ctx context.Context, payload []byte) error                // target -> peer (from a handler)
 	Close    func() error                                                   // the Close under test
 	Cleanup  func()                                                         // closes the peer and whatever the target does not own
+	Inners   []*innerCtl                                                    // inner swarms the target owns (variant kinds)
+	Info     string
 }
+
+// innerCtl observes the inner swarm a wrapping stack owns: how often the stack closed it, and (variant
+// "+innererr") makes its Close report an error AFTER really closing it, as quicswarm's joined errors or a
+// twice-closed udpswarm do.
+type innerCtl struct {
+	name   string
+	fail   bool
+	closes atomic.Int32
+	real   func() error
+}
+
+var errInnerClose = errors.New("inner swarm: shutdown reported an error")
+
+func (ic *innerCtl) close() error {
+	ic.closes.Add(1)
+	err := ic.real()
+	if ic.fail {
+		return errInnerClose
+	}
+	return err
+}
+
+type innerSwarm struct {
+	p2p.Swarm[memswarm.Addr]
+	ic *innerCtl
+}
+
+func (s innerSwarm) Close() error { return s.ic.close() }
+
+type innerSecureAsk struct {
+	p2p.SecureAskSwarm[memswarm.Addr, struct{}]
+	ic *innerCtl
+}
+
+func (s innerSecureAsk) Close() error { return s.ic.close() }
+
+func wrapInner(name string, fail bool, x p2p.Swarm[memswarm.Addr]) (innerSwarm, *innerCtl) {
+	ic := &innerCtl{name: name, fail: fail, real: x.Close}
+	return innerSwarm{x, ic}, ic
+}
+
+func wrapInnerSecureAsk(name string, fail bool, x p2p.SecureAskSwarm[memswarm.Addr, struct{}]) (innerSecureAsk, *innerCtl) {
+	ic := &innerCtl{name: name, fail: fail, real: x.Close}
+	return innerSecureAsk{x, ic}, ic
+}
+
+// variantKinds: wrapping stacks that own their inner swarm (their Close closes it at HEAD), run with an inner
+// swarm whose Close reports an error. p2pmux is left out: the mux has no Close and does not own the inner swarm.
+var variantKinds = []string{"fragswarm+innererr", "mbapp+innererr", "p2pkeswarm+innererr", "quicswarm+innererr", "multiswarm3+innererr"}
 
 var stackKinds = []string{"memswarm", "fragswarm", "mbapp", "p2pmux", "multiswarm", "p2pkeswarm", "quicswarm", "sshswarm", "udpswarm"}
 
@@ -99,8 +152,74 @@ func closeQuietly(fs ...func() error) func() {
 
 // newStack builds target and peer. The target is created LAST so that the goroutine
 // baseline of the caller (taken before newStack) covers neither.
-func newStack(kind string) (*Stack, error) {
+func newStack(kind string) (*Stack, error) { return newStackV(kind, 0) }
+
+// newStackV: variant selects, for multiswarm3+innererr, which of the three transports fail (bit mask, 0 = all).
+func newStackV(kind string, variant int) (*Stack, error) {
 	switch kind {
+	case "fragswarm+innererr":
+		r := memswarm.NewRealm(memswarm.WithQueueLen(128), memswarm.WithMTU(1<<12))
+		peer := fragswarm.New[memswarm.Addr](r.NewSwarm(), 1<<16)
+		in, ic := wrapInner("memswarm", true, r.NewSwarm())
+		target := fragswarm.New[memswarm.Addr](in, 1<<16)
+		st := wrap[memswarm.Addr](kind, target, peer, target.LocalAddrs()[0], peer.LocalAddrs()[0], target.Close, closeQuietly(peer.Close))
+		st.Inners = []*innerCtl{ic}
+		return st, nil
+	case "mbapp+innererr":
+		r := memswarm.NewSecureRealm[struct{}](memswarm.WithQueueLen(128), memswarm.WithMTU(1<<12))
+		peer := mbapp.New[memswarm.Addr, struct{}](r.NewSwarm(struct{}{}), 1<<16)
+		in, ic := wrapInnerSecureAsk("memswarm", true, r.NewSwarm(struct{}{}))
+		target := mbapp.New[memswarm.Addr, struct{}](in, 1<<16)
+		st := wrap[memswarm.Addr](kind, p2p.Swarm[memswarm.Addr](target), p2p.Swarm[memswarm.Addr](peer), target.LocalAddrs()[0], peer.LocalAddrs()[0], target.Close, closeQuietly(peer.Close))
+		st.Inners = []*innerCtl{ic}
+		return st, nil
+	case "p2pkeswarm+innererr":
+		r := memswarm.NewRealm(memswarm.WithQueueLen(128))
+		peer := p2pkeswarm.New[memswarm.Addr](r.NewSwarm(), x509Key(1))
+		in, ic := wrapInner("memswarm", true, r.NewSwarm())
+		target := p2pkeswarm.New[memswarm.Addr](in, x509Key(2))
+		st := wrap[p2pkeswarm.Addr[memswarm.Addr]](kind, target, peer, target.LocalAddrs()[0], peer.LocalAddrs()[0], target.Close, closeQuietly(peer.Close))
+		st.Inners = []*innerCtl{ic}
+		return st, nil
+	case "quicswarm+innererr":
+		r := memswarm.NewRealm(memswarm.WithQueueLen(128))
+		peer, err := quicswarm.New[memswarm.Addr](r.NewSwarm(), x509Key(1))
+		if err != nil {
+			return nil, err
+		}
+		in, ic := wrapInner("memswarm", true, r.NewSwarm())
+		target, err := quicswarm.New[memswarm.Addr](in, x509Key(2))
+		if err != nil {
+			return nil, err
+		}
+		st := wrap[quicswarm.Addr[memswarm.Addr]](kind, p2p.Swarm[quicswarm.Addr[memswarm.Addr]](target), p2p.Swarm[quicswarm.Addr[memswarm.Addr]](peer), target.LocalAddrs()[0], peer.LocalAddrs()[0], target.Close, closeQuietly(peer.Close))
+		st.Inners = []*innerCtl{ic}
+		return st, nil
+	case "multiswarm3+innererr":
+		if variant == 0 {
+			variant = 7
+		}
+		r := memswarm.NewSecureRealm[struct{}](memswarm.WithQueueLen(128))
+		names := []string{"ta", "tb", "tc"}
+		var ics []*innerCtl
+		mk := func(observe bool) p2p.SecureAskSwarm[multiswarm.Addr, struct{}] {
+			m := map[string]multiswarm.DynSecureAskSwarm[struct{}]{}
+			for i, n := range names {
+				var x p2p.SecureAskSwarm[memswarm.Addr, struct{}] = r.NewSwarm(struct{}{})
+				if observe {
+					in, ic := wrapInnerSecureAsk(n, variant&(1<<i) != 0, x)
+					ics = append(ics, ic)
+					x = in
+				}
+				m[n] = multiswarm.WrapSecureAskSwarm[memswarm.Addr, struct{}](x)
+			}
+			return multiswarm.NewSecureAsk[struct{}](m)
+		}
+		peer, target := mk(false), mk(true)
+		st := wrap[multiswarm.Addr](kind, p2p.Swarm[multiswarm.Addr](target), p2p.Swarm[multiswarm.Addr](peer), target.LocalAddrs()[0], peer.LocalAddrs()[0], target.Close, closeQuietly(peer.Close))
+		st.Inners = ics
+		st.Info = fmt.Sprintf("failing=%03b", variant)
+		return st, nil
 	case "memswarm":
 		r := memswarm.NewRealm(memswarm.WithQueueLen(8))
 		peer, target := r.NewSwarm(), r.NewSwarm()
